@@ -30,6 +30,7 @@ static void feed(const char *s, size_t len, struct res *r, uint64_t id, int do_c
         polyseed_data *d = NULL; const polyseed_lang *lo = NULL; int li = k < 0 ? -1 : EXPL[k];
         env_clear_log();
         int st = k < 0 ? polyseed_decode(in, (polyseed_coin)coin, &lo, &d) : polyseed_decode_explicit(in, (polyseed_coin)coin, polyseed_get_lang(li), &d); r->calls++;
+        long nreq0 = E.alloc_seq;      /* allocation requests this call made */
         if (st == POLYSEED_OK) polyseed_free(d);
         r->digest ^= mix64(id * 8 + (uint64_t)(k + 1), (uint64_t)st);
         if (st < 0 || st > 7 || st == POLYSEED_ERR_FORMAT) { snprintf(key, sizeof key, "c14:status-range:%d", st); res_viol(r, key, rep, "decoder returned undocumented status %d", st); goto out; }
@@ -41,11 +42,14 @@ static void feed(const char *s, size_t len, struct res *r, uint64_t id, int do_c
             polyseed_data *d2 = NULL; int st2 = polyseed_decode(in, (polyseed_coin)coin, NULL, &d2); r->calls++; if (st2 == POLYSEED_OK) polyseed_free(d2);
             if (st2 != st) { res_viol(r, "c14:null-lang-out", rep, "polyseed_decode with lang_out = NULL returned %d, with a pointer %d", st2, st); goto out; }
         }
-        if (st == POLYSEED_OK) {   /* the same call when the allocator refuses */
-            polyseed_data *d3 = NULL; env_clear_log(); E.fail_at = 0;
-            int st3 = k < 0 ? polyseed_decode(in, (polyseed_coin)coin, &lo, &d3) : polyseed_decode_explicit(in, (polyseed_coin)coin, polyseed_get_lang(li), &d3); E.fail_at = -1; r->calls++;
-            if (st3 == POLYSEED_OK) polyseed_free(d3);
-            if (st3 != POLYSEED_ERR_MEMORY || ledger_live() != 1) { res_viol(r, "c14:alloc-refused", rep, "a decodable phrase with the allocator refusing returned %d (expected the memory status), blocks left %d", st3, ledger_live() - 1); goto out; }
+        if (st == POLYSEED_OK) {   /* the same call with each of its allocation requests refused in turn (their number is learnt from the call above) */
+            long nreq = nreq0; if (nreq > 6) nreq = 6;
+            for (long fa = 0; fa < nreq; fa++) {
+                polyseed_data *d3 = NULL; env_clear_log(); E.fail_at = fa;
+                int st3 = k < 0 ? polyseed_decode(in, (polyseed_coin)coin, &lo, &d3) : polyseed_decode_explicit(in, (polyseed_coin)coin, polyseed_get_lang(li), &d3); E.fail_at = -1; r->calls++;
+                if (st3 == POLYSEED_OK) polyseed_free(d3);
+                if (st3 != POLYSEED_ERR_MEMORY || ledger_live() != 1) { res_viol(r, "c14:alloc-refused", rep, "a decodable phrase with allocation request #%ld of the call refused returned %d (expected the memory status), blocks left %d", fa + 1, st3, ledger_live() - 1); ledger_drop_all(); SEED = NULL; polyseed_load(SEED_ST, &SEED); goto out; }
+            }
         }
         if (st != want) { snprintf(key, sizeof key, "c14:status-model:%d->%d", want, st); res_viol(r, key, rep, "%s returned %d, reference decoder %d", k < 0 ? "decode" : "decode_explicit", st, want); goto out; }
     }
